@@ -1557,6 +1557,10 @@ func (fc *FuncCtx) finish() {
 		ienv := fc.ifaceEnv(ic, st, res)
 		short := ic.Key[strings.LastIndex(ic.Key, "/")+1:]
 		for i, c := range ic.Ensures {
+			if why, ok := con.AssumedRefine[clauseLabel(c, i)]; ok {
+				fc.assumedPosts[con.Key+" :: "+short+"/"+clauseLabel(c, i)+" (assumed of this implementation: "+why+")"] = true
+				continue
+			}
 			var t string
 			if err := catchTr(fmt.Sprintf("%s ensures %d (as implemented by %s)", ic.Key, i, con.Key), func() { t = ienv.trBool(c.E) }); err != nil {
 				panic(trErr(err.Error()))
